@@ -42,6 +42,7 @@ def run(ctx):
     yes_certificate(ctx, g)
     verdict_sources(ctx, g)
     fallback_constants(ctx, g)
+    no_verdicts_justified(ctx, g)
     data_table(ctx, g)
     orbit_type_labels(ctx, g)
     invariant_key(ctx, g)
@@ -340,6 +341,100 @@ def verdict_sources(ctx, g):
         for b2, bi2, t2 in callers_of(ctx, fn):
             ctx.ob("T9-verdict-constructor", b2.name, "call:" + fn.split("::")[-1], "ok" if b2.name == "euclidicity::is_euclidean" else "violation",
                    "called from the decision procedure" if b2.name == "euclidicity::is_euclidean" else fn + " is called outside is_euclidean", b2.span_of(bi2))
+
+
+def _zeros(t, n):
+    t = strip(t)
+    return t[0] == "agg" and t[1] == "array" and len(t[2]) == n and all(eval_int(x) == 0 for x in t[2])
+
+
+def no_verdicts_justified(ctx, g):
+    """every `no` of is_euclidean is taken on the failing side of the test that justifies it: the invariant key is NOT in the table, there is NO
+    pseudo-toroidal cover, the cover does NOT simplify, a component IS bad, the abelian invariants are NOT [0, 0, 0], the group IS free, the
+    subgroup count / the subgroup invariants ARE bad.  A `no` on the passing side of its own test answers no for euclidean symbols, which
+    contradicts the yes that the same symbol gets in another numbering or through its cover."""
+    ctx.clauses.append("every `no` verdict sits on the failing side of its justifying test (T3, immediate guard of every fail(..) site)")
+    b = ctx.body("euclidicity::is_euclidean")
+    def outcome(a):
+        a = atom_norm(a, g)
+        if a[0] == "bool":
+            t = strip(a[1])
+            if t[0] == "call":
+                n = t[1].split("::")[-1]
+                if n in ("contains", "is_connected", "bad_connected_components", "is_free", "bad_subgroup_count", "bad_subgroup_invariants"):
+                    return (n, a[2])
+                if n in ("ne", "eq") and any(is_call(strip(x), "abelian_invariants") for x in t[2]) and any(_zeros(x, 3) for x in t[2]):
+                    return ("invariants are Z^3", a[2] if n == "eq" else not a[2])
+                if n in ("ne", "eq"):
+                    return ("other comparison", a[2])
+        if a[0] in ("variant", "notvariant"):
+            t = strip(a[1])
+            if t[0] == "call" and t[1].split("::")[-1] in ("pseudo_toroidal_cover", "simplify"):
+                some = (a[2] == 1) if a[0] == "variant" else (1 not in a[2])
+                return (t[1].split("::")[-1] + " is Some", some)
+        return None
+    JUST = {("contains", False), ("pseudo_toroidal_cover is Some", False), ("simplify is Some", False), ("bad_connected_components", True),
+            ("invariants are Z^3", False), ("is_free", True), ("bad_subgroup_count", True), ("bad_subgroup_invariants", True)}
+    n = 0
+    used = set()
+    for bi, t in b.calls(exact="euclidicity::fail"):
+        n += 1
+        outs = [o for o in (outcome(a) for a in b.facts_at(bi)) if o is not None]
+        last = outs[-1] if outs else None
+        ok = last in JUST
+        used.add(last)
+        ctx.ob("T3-no-verdict-justified", b.name, "fail <- %s" % (last,), "ok" if ok else "violation",
+               "the no verdict is taken where its test fails" if ok else
+               "a no verdict is taken directly under %s, which does not speak against euclidicity (the test's passing side): euclidean symbols are answered no" % (last,), b.span_of(bi))
+    ctx.floor("no verdicts in is_euclidean", n, 8)
+    # bad_connected_components: decision table over its tests
+    c = ctx.body("euclidicity::bad_connected_components")
+    ctx.scan([c])
+    seen = [("local", l, nm) for l, nm in c.debug.items() if c.local_ty(l) == "bool" and not c.is_stable_local(l)]
+    bad = None
+    if len(seen) != 1:
+        bad = "no single `seen a Z^3 component` flag"
+    else:
+        def val(z3, triv, sn, bsi):
+            def f(y):
+                y = strip(y)
+                if y == seen[0]:
+                    return sn
+                if is_call(y, "PartialEq::eq") and any(is_call(strip(x), "abelian_invariants") for x in y[2]):
+                    if any(_zeros(x, 3) for x in y[2]):
+                        return z3
+                    if any(_zeros(x, 0) for x in y[2]):
+                        return triv
+                if is_call(y, "bad_subgroup_invariants"):
+                    return bsi
+                return None
+            return f
+        trues = {bi for bi, si, s_ in c.assigns() if s_["place"]["l"] == 0 and not s_["place"]["p"] and eval_int(strip(norm(c.rv_origin(s_["rv"]), g))) == 1}
+        for z3, triv, sn, bsi, want in ((1, 0, 1, 0, True), (1, 0, 1, 1, True), (1, 0, 0, 1, True), (1, 0, 0, 0, False), (0, 1, 0, 1, True), (0, 1, 1, 1, True),
+                                        (0, 1, 0, 0, False), (0, 1, 1, 0, False), (0, 0, 0, 0, True), (0, 0, 1, 0, True)):
+            r = bool(reachable_sites(c, g, trues, val(z3, triv, sn, bsi)))
+            if r != want and not bad:
+                bad = "a component with invariants %s, %s Z^3 component seen before, subgroup test %s: the sum is %s" % (
+                    "[0, 0, 0]" if z3 else "[]" if triv else "of another group", "a" if sn else "no", "bad" if bsi else "passed", "reported bad" if r else "not reported bad")
+        # the flag is raised only on the Z^3 branch, and the two subgroup tests use (2, [0, 0, 0]) and (5, [])
+        calls = []
+        for bi, t in c.calls(exact="euclidicity::bad_subgroup_invariants"):
+            idx = eval_int(strip(norm(c.origin(t["args"][1]), g)))
+            lit = vec_literal(c, c.origin(t["args"][2]))
+            z = any(a[0] == "bool" and a[2] and is_call(strip(a[1]), "PartialEq::eq") and any(_zeros(x, 3) for x in strip(a[1])[2]) for a in (atom_norm(x, g) for x in c.facts_at(bi)))
+            calls.append((z, idx, None if lit is None else [eval_int(strip(norm(x, g))) for x in lit]))
+        if not bad and sorted(calls, key=str) != sorted([(True, 2, [0, 0, 0]), (False, 5, [])], key=str):
+            bad = "the subgroup tests are not (index 2, [0, 0, 0]) for a Z^3 component and (index 5, []) for a trivial one: %s" % (calls,)
+        sets = [(dbb, eval_int(strip(norm(d, g)))) for dbb, d in c.all_defs_origins(seen[0][1])]
+        if not bad and sorted(v for _, v in sets) != [0, 1]:
+            bad = "the Z^3 flag is not `false`, then `true`"
+        for dbb, v in sets:
+            if v == 1 and not bad:
+                fa = [atom_norm(x, g) for x in c.facts_at(dbb)]
+                if not any(a[0] == "bool" and a[2] and is_call(strip(a[1]), "PartialEq::eq") and any(_zeros(x, 3) for x in strip(a[1])[2]) for a in fa):
+                    bad = "the Z^3 flag is raised for a component whose invariants are not [0, 0, 0]"
+    ctx.ob("T4-connected-sum-table", c.name, "bad iff second Z^3 / bad subgroups / other group", "ok" if not bad else "violation",
+           "bad exactly for: a second Z^3 component, a Z^3 or trivial component failing its subgroup test, a component with any other invariants" if not bad else bad)
 
 
 def fallback_constants(ctx, g):
